@@ -34,11 +34,14 @@ def bs_string(m, groups):
 def rand_term_groups(rng, m, tags, pattern=None):
     groups = []
     for tag in tags:
-        if pattern is not None:
+        if pattern is not None and len(tags) <= 2:
             st = rng.shuffle(pattern)
+        elif pattern is not None:
+            st = rng.shuffle([1] + [0] * (m - 1))
         else:
             st = [0] * m
-            for j in rng.shuffle(range(m))[:rng.rint(1, min(2, m))]:
+            nph = rng.rint(1, min(2, m)) if len(tags) <= 2 else 1      # keep the total photon number <= 4
+            for j in rng.shuffle(range(m))[:nph]:
                 st[j] = 1
         groups.append((tag, st))
     return groups
@@ -47,7 +50,7 @@ def rand_term_groups(rng, m, tags, pattern=None):
 def rand_sv(rng, m, max_terms, max_tags, untagged=False):
     nt = rng.rint(1, max_terms)
     terms, seen = [], set()
-    bunched = rng.chance(1, 4)
+    bunched = rng.chance(1, 4) and max_tags <= 3
     pattern = ([2] + [0] * (m - 1)) if bunched else None
     ntags = 1 if untagged else rng.rint(1, max_tags)
     for _ in range(nt):
